@@ -255,9 +255,9 @@ def extract():
     out.append("Definition dir_text (d : dir) : string := match d with DAsc => %s | DDesc => %s end."
                % (S(E.Order.asc.value), S(E.Order.desc.value)))
     # alias behaviour rows
-    out.append("(* per class that defines get_sql: text appended for an instance aliased %s, relative to the same instance"
-               " without alias, when with_alias is absent / False / True under quote_char=\", alias_quote_char=`, as_keyword=True,"
-               " and when True under quote_char=\" alone *)" % SENT)
+    out.append("(* per class that defines get_sql: the text appended for an instance aliased %s, relative to the same instance "
+               "without alias, when with_alias is absent / False / True under quote set 1 (quote_char = double quote, "
+               "alias_quote_char = backtick, as_keyword = True), and when True under quote set 2 (quote_char = double quote only) *)" % SENT)
     out.append("Definition x_alias_rows : list (string * (string * string * string * string)) := [")
     out.append(";\n".join("  (%s, (%s, %s, %s, %s))" % tuple(S(x) for x in r) for r in rows))
     out.append("].")
